@@ -22,7 +22,7 @@
 From Coq Require Import List Arith Bool ZArith.
 From VBase Require Import FieldOps ZpOps.
 From VModel Require Import Soundness.
-From VProofs Require Import ZpLaws SoundnessPoly SoundnessEnforce SoundnessBoundary SoundnessVerifier SoundnessCount SoundnessExamples.
+From VProofs Require Import ZpLaws SoundnessPoly SoundnessEnforce SoundnessBoundary SoundnessVerifier SoundnessCount SoundnessDeep SoundnessExamples.
 Import ListNotations.
 Local Open Scope nat_scope.
 
@@ -161,58 +161,194 @@ Theorem C02_bnd_divisor_eval_single : forall {F} (O : FOps F), FLaws O -> forall
 Proof. exact (@bnd_divisor_eval_single). Qed.
 Print Assumptions C02_bnd_divisor_eval_single.
 
-(* ------------------------------------------------------------------ the verifier's decision *)
+(* ------------------------------------------------------------------ the verifier's decision
+   (main and auxiliary trace segment; any carrier: base field or extension) *)
 Theorem C02_verify_accept_implies : forall {F} (O : FOps F), FLaws O ->
-  forall (eval_trans : list F -> list F -> list F -> list F) (E : Env) (A : AirDesc) (C : Coins) (P : ProofObj),
-  verify_model O eval_trans E A C P = Accept ->
+  forall (eval_trans : list F -> list F -> list F -> list F)
+         (eval_aux_trans : list F -> list F -> list F -> list F -> list F -> list F -> list F)
+         (E : Env) (A : AirDesc) (C : Coins) (P : ProofObj),
+  verify_model O eval_trans eval_aux_trans E A C P = Accept ->
   e_modulus E = p_modulus P /\
   (exists o, In o (e_acceptable E) /\ zlist_eqb (p_options P) o = true) /\
-  evaluate_constraints O eval_trans A C P = ood_reduce O (air_n A) (c_z C) 0 (p_ood_evals P) /\
+  evaluate_constraints O eval_trans eval_aux_trans A C P = ood_reduce O (air_n A) (c_z C) 0 (p_ood_evals P) /\
   e_fri_commit_ok E = true /\ e_pow_ok E = true /\ e_trace_auth E = true /\ e_cons_auth E = true /\
   e_fri E (deep_evaluations O A C P) = true.
 Proof. exact (@verify_accept_implies). Qed.
 Print Assumptions C02_verify_accept_implies.
 
 Theorem C02_verify_accept_iff : forall {F} (O : FOps F)
-  (eval_trans : list F -> list F -> list F -> list F) (E : Env) (A : AirDesc) (C : Coins) (P : ProofObj),
-  verify_model O eval_trans E A C P = Accept <->
+  (eval_trans : list F -> list F -> list F -> list F)
+  (eval_aux_trans : list F -> list F -> list F -> list F -> list F -> list F -> list F)
+  (E : Env) (A : AirDesc) (C : Coins) (P : ProofObj),
+  verify_model O eval_trans eval_aux_trans E A C P = Accept <->
   (Z.eqb (e_modulus E) (p_modulus P) && existsb (zlist_eqb (p_options P)) (e_acceptable E) &&
-   ood_equation_b O eval_trans A C P && e_fri_commit_ok E && e_pow_ok E && e_trace_auth E && e_cons_auth E &&
+   ood_equation_b O eval_trans eval_aux_trans A C P && e_fri_commit_ok E && e_pow_ok E && e_trace_auth E && e_cons_auth E &&
    e_fri E (deep_evaluations O A C P) = true).
 Proof. exact (@verify_accept_iff). Qed.
 Print Assumptions C02_verify_accept_iff.
 
-(* every opened row enters the value handed to FRI as the DEEP quotient against the out-of-domain frame *)
+(* every opened row (main, and auxiliary if the trace has one) enters the value handed to FRI as the DEEP quotient
+   against the out-of-domain frame *)
 Theorem C02_deep_evaluations_nth : forall {F} (O : FOps F) (A : AirDesc) (C : Coins) (P : ProofObj) q rt rc x,
   nth_error (p_q_trace P) q = Some rt -> nth_error (p_q_cons P) q = Some rc -> nth_error (c_xs C) q = Some x ->
   nth_error (deep_evaluations O A C P) q =
-  Some (fadd O (deep_trace_at O C P (fmul O (c_z C) (air_g A)) rt x) (deep_cons_at O C P rc x)).
+  Some (fadd O (deep_trace_at O C P (fmul O (c_z C) (air_g A)) rt (aux_row_at P q) x) (deep_cons_at O C P rc x)).
 Proof. exact (@deep_evaluations_nth). Qed.
 Print Assumptions C02_deep_evaluations_nth.
 
-Theorem C02_deep_trace_at_spec : forall {F} (O : FOps F), FLaws O -> forall (C : Coins) (P : ProofObj) zg row x,
+(* the coefficients of the auxiliary columns are those AFTER the main width (skipn (length row)) *)
+Theorem C02_deep_trace_at_spec : forall {F} (O : FOps F), FLaws O -> forall (C : Coins) (P : ProofObj) zg row arow x,
   fsub O x (c_z C) <> fzero O -> fsub O x zg <> fzero O ->
-  deep_trace_at O C P zg row x =
-  fadd O (fdiv O (dot O (cc_deep_trace C) (map (fun vo => fsub O (fst vo) (snd vo)) (combine row (p_ood_cur P)))) (fsub O x (c_z C)))
-         (fdiv O (dot O (cc_deep_trace C) (map (fun vo => fsub O (fst vo) (snd vo)) (combine row (p_ood_next P)))) (fsub O x zg)).
+  deep_trace_at O C P zg row arow x =
+  match p_aux P, arow with
+  | Some ax, Some ar =>
+      fadd O (fdiv O (fadd O (dot O (cc_deep_trace C) (diffs O row (p_ood_cur P)))
+                             (dot O (skipn (length row) (cc_deep_trace C)) (diffs O ar (ax_cur ax)))) (fsub O x (c_z C)))
+             (fdiv O (fadd O (dot O (cc_deep_trace C) (diffs O row (p_ood_next P)))
+                             (dot O (skipn (length row) (cc_deep_trace C)) (diffs O ar (ax_next ax)))) (fsub O x zg))
+  | _, _ =>
+      fadd O (fdiv O (dot O (cc_deep_trace C) (diffs O row (p_ood_cur P))) (fsub O x (c_z C)))
+             (fdiv O (dot O (cc_deep_trace C) (diffs O row (p_ood_next P))) (fsub O x zg))
+  end.
 Proof. exact (@deep_trace_at_spec). Qed.
 Print Assumptions C02_deep_trace_at_spec.
 
-(* acceptance read on polynomials: for a frame made of evaluations (transition constraints on it give N_j(z), the
+(* ------------------------------------------------------------------ DEEP coefficients of main and auxiliary columns (round 4)
+   (1) the index map of compose_trace_columns: main column i -> cc.trace[i], auxiliary column j -> cc.trace[main_width + j]
+       (cc_offset).  It is injective over all columns of a trace of main width w and auxiliary width aw, it enumerates
+       exactly 0 .. w+aw-1, and deep_trace_at IS the sum over all columns with these indexes. *)
+Theorem C02_deep_coeff_index_aux_offset : forall w j, deep_coeff_index w (AuxCol j) = w + j.
+Proof. exact deep_coeff_index_aux_offset. Qed.
+Print Assumptions C02_deep_coeff_index_aux_offset.
+
+Theorem C02_deep_coeff_index_injective : forall w aw (c c' : TraceCol),
+  col_in_range w aw c -> col_in_range w aw c' -> deep_coeff_index w c = deep_coeff_index w c' -> c = c'.
+Proof. exact deep_coeff_index_injective. Qed.
+Print Assumptions C02_deep_coeff_index_injective.
+
+Theorem C02_deep_coeff_index_enumerates : forall w aw,
+  map (deep_coeff_index w) (all_cols w aw) = seq 0 (w + aw) /\ NoDup (map (deep_coeff_index w) (all_cols w aw)) /\
+  (forall c, In c (all_cols w aw) <-> col_in_range w aw c).
+Proof. exact (fun w aw => conj (deep_coeff_index_enumerates w aw) (conj (deep_coeff_index_NoDup w aw) (all_cols_in_range w aw))). Qed.
+Print Assumptions C02_deep_coeff_index_enumerates.
+
+Theorem C02_deep_trace_at_index_form : forall {F} (O : FOps F), FLaws O ->
+  forall (C : Coins) (P : ProofObj) (ax : AuxOpen) zg row ar x,
+  p_aux P = Some ax ->
+  length (p_ood_cur P) = length row -> length (p_ood_next P) = length row ->
+  length (ax_cur ax) = length ar -> length (ax_next ax) = length ar ->
+  fsub O x (c_z C) <> fzero O -> fsub O x zg <> fzero O ->
+  deep_trace_at O C P zg row (Some ar) x =
+  fadd O (fdiv O (col_sum O (cc_deep_trace C) (deep_coeff_index (length row)) (all_cols (length row) (length ar))
+                          row ar (p_ood_cur P) (ax_cur ax)) (fsub O x (c_z C)))
+         (fdiv O (col_sum O (cc_deep_trace C) (deep_coeff_index (length row)) (all_cols (length row) (length ar))
+                          row ar (p_ood_next P) (ax_next ax)) (fsub O x zg)).
+Proof. exact (@deep_trace_at_index_form). Qed.
+Print Assumptions C02_deep_trace_at_index_form.
+
+(* (2) FULL binding statement (NOT proved, it needs the proximity / low-degree argument of FRI): if FRI accepts the DEEP
+       evaluations then every opened column value lies on a polynomial of degree < n consistent with the claimed
+       out-of-domain values of THAT column, except with probability ~ (number of columns) / |E| over the coefficients.
+       Proved: the algebraic core at one query position.  For two assignments of out-of-domain trace values (same
+       openings, same coins except the coefficient vector) the difference of the DEEP trace values is the dot product of
+       the coefficient vector with the vector of per-column differences, column c sitting at position deep_coeff_index c ... *)
+Theorem C02_deep_ood_difference_linear : forall {F} (O : FOps F), FLaws O ->
+  forall (C : Coins) (P : ProofObj) (ax : AuxOpen) zg row ar x cur' next' acur' anext',
+  p_aux P = Some ax ->
+  length (p_ood_cur P) = length row -> length (p_ood_next P) = length row ->
+  length cur' = length row -> length next' = length row ->
+  length (ax_cur ax) = length ar -> length (ax_next ax) = length ar ->
+  length acur' = length ar -> length anext' = length ar ->
+  fsub O x (c_z C) <> fzero O -> fsub O x zg <> fzero O ->
+  fsub O (deep_trace_at O C P zg row (Some ar) x)
+         (deep_trace_at O C (with_ood P cur' next' acur' anext') zg row (Some ar) x) =
+  dot O (cc_deep_trace C)
+      (ood_delta O x (c_z C) zg (p_ood_cur P) cur' (p_ood_next P) next' ++
+       ood_delta O x (c_z C) zg (ax_cur ax) acur' (ax_next ax) anext').
+Proof. exact (@deep_ood_difference_linear). Qed.
+Print Assumptions C02_deep_ood_difference_linear.
+
+Theorem C02_ood_delta_nth : forall {F} (O : FOps F), FLaws O -> forall x z zg (cur cur' next next' : list F) i,
+  length cur' = length cur -> length next = length cur -> length next' = length cur ->
+  nth i (ood_delta O x z zg cur cur' next next') (fzero O) =
+  fadd O (fdiv O (fsub O (nth i cur' (fzero O)) (nth i cur (fzero O))) (fsub O x z))
+         (fdiv O (fsub O (nth i next' (fzero O)) (nth i next (fzero O))) (fsub O x zg)).
+Proof. exact (@ood_delta_nth). Qed.
+Print Assumptions C02_ood_delta_nth.
+
+(*     ... hence, because the index map is injective (every column has its own coordinate): if the two assignments differ in
+       column c (non-zero difference at this position), the coefficient vectors giving both the SAME DEEP value do not
+       contain the unit vector of c, contain at most one vector on every line parallel to that coordinate, and are at
+       most |F|^(m-1) of the |F|^m vectors (m = w + aw). *)
+Theorem C02_deep_ood_binding_partial : forall {F} (O : FOps F), FLaws O ->
+  forall (C : Coins) (P : ProofObj) (ax : AuxOpen) zg row ar x cur' next' acur' anext' (c : TraceCol),
+  p_aux P = Some ax ->
+  length (p_ood_cur P) = length row -> length (p_ood_next P) = length row ->
+  length cur' = length row -> length next' = length row ->
+  length (ax_cur ax) = length ar -> length (ax_next ax) = length ar ->
+  length acur' = length ar -> length anext' = length ar ->
+  fsub O x (c_z C) <> fzero O -> fsub O x zg <> fzero O ->
+  let Dm := ood_delta O x (c_z C) zg (p_ood_cur P) cur' (p_ood_next P) next' in
+  let Da := ood_delta O x (c_z C) zg (ax_cur ax) acur' (ax_next ax) anext' in
+  let m := length row + length ar in
+  let same cc := length cc = m /\
+                 deep_trace_at O (with_deep_cc C cc) P zg row (Some ar) x =
+                 deep_trace_at O (with_deep_cc C cc) (with_ood P cur' next' acur' anext') zg row (Some ar) x in
+  col_in_range (length row) (length ar) c -> col_value O Dm Da c <> fzero O ->
+  ~ same (unit_vec O m (deep_coeff_index (length row) c)) /\
+  (forall al be, same al -> same be ->
+     remove_nth (deep_coeff_index (length row) c) al = remove_nth (deep_coeff_index (length row) c) be -> al = be) /\
+  (forall elems : list F, (forall y, In y elems) ->
+   forall goods : list (list F), NoDup goods -> (forall cc, In cc goods -> same cc) -> length goods <= length elems ^ (m - 1)).
+Proof. exact (@deep_ood_binding). Qed.
+Print Assumptions C02_deep_ood_binding_partial.
+
+(* (3) REFUTED for the aliased map (auxiliary column j -> cc.trace[j], the running index dropped): it is not injective, and
+       opposite errors in main column 0 and auxiliary column 0 — in the opened values (1,0) vs (0,1), or in the claimed
+       out-of-domain values (a+1, b-1) vs (a, b) — give the same DEEP trace value for ALL coin outputs (every coefficient
+       vector), frames and points: only the sum of the two columns is bound. *)
+Theorem C02_aliased_index_not_injective : forall w aw, 0 < w -> 0 < aw ->
+  exists c c', col_in_range w aw c /\ col_in_range w aw c' /\ c <> c' /\ aliased_index c = aliased_index c'.
+Proof. exact aliased_index_not_injective. Qed.
+Print Assumptions C02_aliased_index_not_injective.
+
+Theorem C02_deep_binding_aliased_refuted : forall {F} (O : FOps F), FLaws O ->
+  (exists row row' ar ar' : list F, row <> row' /\ ar <> ar' /\
+     forall (C : Coins) (P : ProofObj) (ax : AuxOpen) zg x a a2 b b2,
+       p_aux P = Some ax -> p_ood_cur P = [a] -> p_ood_next P = [a2] -> ax_cur ax = [b] -> ax_next ax = [b2] ->
+       deep_trace_at_gen O aliased_index_aux C P zg row (Some ar) x =
+       deep_trace_at_gen O aliased_index_aux C P zg row' (Some ar') x) /\
+  (exists d : F, d <> fzero O /\
+     forall (C : Coins) (P : ProofObj) (ax : AuxOpen) zg x a a2 b b2 v u, p_aux P = Some ax ->
+       [fadd O a d] <> [a] /\
+       deep_trace_at_gen O aliased_index_aux C (with_ood P [fadd O a d] [a2] [fsub O b d] [b2]) zg [v] (Some [u]) x =
+       deep_trace_at_gen O aliased_index_aux C (with_ood P [a] [a2] [b] [b2]) zg [v] (Some [u]) x).
+Proof. exact (@deep_binding_aliased_refuted). Qed.
+Print Assumptions C02_deep_binding_aliased_refuted.
+
+(* acceptance read on polynomials: for a frame made of evaluations (main transition constraints on it give N_j(z), the
    H_i(z) are evaluations of the committed columns) the accepted equation is
-   H(z) = (sum_j alpha_j N_j)(z) / D(z) + boundary terms, D the vanishing polynomial of the enforced steps *)
+   H(z) = ((sum_j alpha_j N_j)(z) + sum_j alpha_(nt+j) aux_j) / D(z) + boundary terms (main and auxiliary groups),
+   D the vanishing polynomial of the enforced steps *)
 Theorem C02_accept_gives_polynomial_relation : forall {F} (O : FOps F), FLaws O ->
-  forall (eval_trans : list F -> list F -> list F -> list F) (E : Env) (A : AirDesc) (C : Coins) (P : ProofObj)
-         (Ns Hs : list (list F)),
-  verify_model O eval_trans E A C P = Accept ->
+  forall (eval_trans : list F -> list F -> list F -> list F)
+         (eval_aux_trans : list F -> list F -> list F -> list F -> list F -> list F -> list F)
+         (E : Env) (A : AirDesc) (C : Coins) (P : ProofObj) (Ns Hs : list (list F)),
+  verify_model O eval_trans eval_aux_trans E A C P = Accept ->
   0 < air_n A -> NoDup (domain O (air_g A) (air_n A)) -> fpow O (air_g A) (air_n A) = fone O ->
   ~ In (c_z C) (trans_exempt O (air_g A) (air_n A) (air_k A)) ->
   eval_trans (p_ood_cur P) (p_ood_next P) (periodic_at O A (c_z C)) = map (fun p => peval O p (c_z C)) Ns ->
   p_ood_evals P = map (fun h => peval O h (c_z C)) Hs ->
   peval O (combine_cols O (air_n A) 0 Hs) (c_z C) =
-  fadd O (fdiv O (peval O (lincomb O (cc_trans C) Ns) (c_z C))
+  fadd O (fdiv O (fadd O (peval O (lincomb O (firstn (air_nt_main A) (cc_trans C)) Ns) (c_z C))
+                         match p_aux P with
+                         | None => fzero O
+                         | Some ax => dot O (skipn (air_nt_main A) (cc_trans C))
+                                        (eval_aux_trans (p_ood_cur P) (p_ood_next P) (ax_cur ax) (ax_next ax)
+                                                        (periodic_at O A (c_z C)) (c_aux_rands C))
+                         end)
                  (peval O (trans_divisor_poly O (air_g A) (air_n A) (air_k A)) (c_z C)))
-         (eval_groups O (air_g A) (air_groups A) (cc_bnd C) (p_ood_cur P) (c_z C)).
+         (eval_boundary_part O A C P).
 Proof. exact (@accept_gives_polynomial_relation). Qed.
 Print Assumptions C02_accept_gives_polynomial_relation.
 
@@ -319,7 +455,36 @@ Example C02_ali_nonvacuous :
   ~ pdivides F64_ops d p1 /\ pdivides F64_ops d (padd F64_ops p0 (pscale F64_ops (e 0) p1)).
 Proof. exact ali_instance. Qed.
 Example C02_verify_model_nonvacuous :
-  verify_model F64_ops ctr_e envx airx coinsx proofx = Accept /\
-  verify_model F64_ops ctr_e envx airx coinsx proofy = RejOod /\
-  verify_model F64_ops ctr_e (mkEnv 7 [[1%Z; 2%Z]] true true true true (fun _ => true)) airx coinsx proofx = Accept.
+  verify_model F64_ops ctr_e aux_e envx airx coinsx proofx = Accept /\
+  verify_model F64_ops ctr_e aux_e envx airx coinsx proofy = RejOod /\
+  verify_model F64_ops ctr_e aux_e (mkEnv 7 [[1%Z; 2%Z]] true true true true (fun _ => true)) airx coinsx proofx = Accept.
 Proof. exact (conj (proj1 verify_accept_instance) (conj (proj1 (proj2 verify_accept_instance)) (proj1 verify_accept_instance))). Qed.
+(* with an auxiliary segment: accepted / an auxiliary out-of-domain value changed is rejected; the auxiliary terms enter *)
+Example C02_verify_model_aux_nonvacuous :
+  verify_model F64_ops ctr_e aux_e envx airx coinsx proofxa = Accept /\
+  verify_model F64_ops ctr_e aux_e envx airx coinsx proofya = RejOod /\
+  p_ood_evals proofxa <> p_ood_evals proofx /\
+  length (deep_evaluations F64_ops airx coinsx proofxa) = 2 /\
+  deep_evaluations F64_ops airx coinsx proofxa <> deep_evaluations F64_ops airx coinsx proofya.
+Proof. exact verify_accept_instance_aux. Qed.
+(* the hypotheses of deep_ood_binding_partial are satisfiable, and its "same" set is neither empty nor everything *)
+Example C02_deep_ood_binding_nonvacuous :
+  let P := proof_d in let C := coins_d in let zg := e6 7 in let x := e6 10 in
+  p_aux P = Some (mkAuxOpen [e6 8] [e6 9] []) /\
+  fsub F64_ops x (c_z C) <> fzero F64_ops /\ fsub F64_ops x zg <> fzero F64_ops /\
+  col_value F64_ops (ood_delta F64_ops x (c_z C) zg [e6 3] [e6 4] [e6 4] [e6 4])
+            (ood_delta F64_ops x (c_z C) zg [e6 8] [e6 8] [e6 9] [e6 9]) (MainCol 0) <> fzero F64_ops /\
+  deep_trace_at F64_ops (with_deep_cc C [e6 0; e6 1]) P zg [e6 1] (Some [e6 2]) x =
+  deep_trace_at F64_ops (with_deep_cc C [e6 0; e6 1]) (with_ood P [e6 4] [e6 4] [e6 8] [e6 9]) zg [e6 1] (Some [e6 2]) x /\
+  deep_trace_at F64_ops (with_deep_cc C [e6 1; e6 0]) P zg [e6 1] (Some [e6 2]) x <>
+  deep_trace_at F64_ops (with_deep_cc C [e6 1; e6 0]) (with_ood P [e6 4] [e6 4] [e6 8] [e6 9]) zg [e6 1] (Some [e6 2]) x.
+Proof. exact deep_ood_binding_instance. Qed.
+(* the witnesses of the refuted statement are separated by the real index map, not by the aliased one *)
+Example C02_real_map_separates_aliased_witness :
+  deep_trace_at F64_ops coins_d proof_d (e6 7) [fadd F64_ops (fzero F64_ops) (fone F64_ops)]
+                (Some [fsub F64_ops (fone F64_ops) (fone F64_ops)]) (e6 10) <>
+  deep_trace_at F64_ops coins_d proof_d (e6 7) [fzero F64_ops] (Some [fone F64_ops]) (e6 10) /\
+  deep_trace_at_gen F64_ops aliased_index_aux coins_d proof_d (e6 7) [fadd F64_ops (fzero F64_ops) (fone F64_ops)]
+                (Some [fsub F64_ops (fone F64_ops) (fone F64_ops)]) (e6 10) =
+  deep_trace_at_gen F64_ops aliased_index_aux coins_d proof_d (e6 7) [fzero F64_ops] (Some [fone F64_ops]) (e6 10).
+Proof. exact (conj real_map_separates aliased_map_does_not). Qed.
